@@ -8,16 +8,20 @@ Seqs == UNION {[1..n -> LabelSet] : n \in 1..NMax}
 WithIds(s) == [i \in 1..Len(s) |-> [id |-> i, ideal |-> s[i].ideal, w |-> s[i].w]]
 OptSet == {[alg |-> a, hasLW |-> (IF l = 0 THEN 0 ELSE 1), lw |-> l, densN |-> d[1], densD |-> d[2], ns |-> n, sw |-> w] :
              a \in Algs, l \in LWs, d \in Dens, n \in NSs, w \in SWs}
-AllInst == SetToSeq(Seqs \X OptSet)
+\* (the product is indexed arithmetically: TLC refuses to enumerate a set of more than 10^6 elements)
+SeqSeq == SetToSeq(Seqs)
+OptSeq == SetToSeq(OptSet)
+NO == Len(OptSeq)
+NInst == Len(SeqSeq) * NO
 VARIABLES i, stop
 vars == <<i, stop>>
-Blk == Len(AllInst) \div NB + 1
+Blk == NInst \div NB + 1
 MinI(a, b) == IF a < b THEN a ELSE b
-Init == \E k \in 0..(NB - 1) : i = 1 + k * Blk /\ stop = MinI((k + 1) * Blk, Len(AllInst)) /\ i <= Len(AllInst)
+Init == \E k \in 0..(NB - 1) : i = 1 + k * Blk /\ stop = MinI((k + 1) * Blk, NInst) /\ i <= NInst
 Next == i < stop /\ i' = i + 1 /\ UNCHANGED stop
 Spec == Init /\ [][Next]_vars
-Labels == WithIds(AllInst[i][1])
-O == AllInst[i][2]
+Labels == WithIds(SeqSeq[((i - 1) \div NO) + 1])
+O == OptSeq[((i - 1) % NO) + 1]
 L == Distribute(Labels, O)
 DensSet == {<<1, 2>>, <<1, 1>>, <<17, 20>>}
 Conservation == ConservationD(Labels, L)
